@@ -189,11 +189,19 @@ def impl_min(pi, alpha):
     return M({"features": ["baseline_normalized_margin"]}).get_minimum_reporting_units(alpha)
 
 
+# several levels in one request, ascending and not, at and somewhat above the largest minimum: every level must get enough
+# calibration units from its own split (runs first on every check)
+DEDICATED = [([0.7, 0.9], 0), ([0.7, 0.9], 1), ([0.7, 0.9], 13), ([0.5, 0.9], 0), ([0.5, 0.9], 27), ([0.5, 0.6, 0.95], 0),
+             ([0.5, 0.6, 0.95], 9), ([0.9, 0.7], 0), ([0.6, 0.8], 0), ([0.6, 0.8], 4)]
+
+
 def api(run, driver, n_cases):
     rng = run.rng
-    for i in range(n_cases):
-        pi = ["nonparametric", "nonparametric", "gaussian", "bootstrap"][i % 4]
-        if pi == "nonparametric":
+    for i in range(-len(DEDICATED), n_cases):
+        pi = ["nonparametric", "nonparametric", "gaussian", "bootstrap"][i % 4] if i >= 0 else "nonparametric"
+        if i < 0:
+            alphas = DEDICATED[i][0]
+        elif pi == "nonparametric":
             alphas = rng.choice([[0.7], [0.5], [0.9, 0.7], [0.7, 0.9], [0.9, 0.5, 0.7], [0.95, 0.8], [0.6], [0.75], [0.85],
                                  [0.5, 0.6], [0.3], [0.95]])
         else:
@@ -205,8 +213,10 @@ def api(run, driver, n_cases):
         lo = min(int(math.ceil(m)) for m in mins)
         if len(alphas) > 1 and rng.random() < 0.4 and lo < need_i:
             n = rng.randint(lo, need_i - 1)  # between the smallest and the largest minimum
+        if i < 0:
+            n = need_i + DEDICATED[i][1]
         n = max(1, n)
-        dup = rng.random() < 0.12 and n >= need_i
+        dup = i >= 0 and rng.random() < 0.12 and n >= need_i
         e = exact_election(rng, n, n_partial=rng.randint(1, 4), dup=dup)
         case = {"api": True, "pi_method": pi, "alphas": alphas, "n_reporting": n, "minimum": need, "duplicate": dup}
         if pi == "bootstrap":
